@@ -227,8 +227,9 @@ func c03Machine(c *Ctx, cfg c03Cfg) *Machine[*listInst] {
 			c.Outcome(fmt.Sprintf("%d/%d", len(in.m.items), in.m.capk))
 			return out
 		},
-		Observe: func(in *listInst) { observeAll(in.s) },
-		Key:     func(in *listInst) string { return stackKey(in.s) },
+		NoopProbeDepth: 1,
+		Observe:        func(in *listInst) { observeAll(in.s) },
+		Key:            func(in *listInst) string { return stackKey(in.s) },
 	}
 }
 
